@@ -129,6 +129,10 @@ func (f *Formatter) formatBackendProperties(props []*ast.BackendProperty, nestLe
 			line.Value += f.indent(nestLevel) + "}"
 			// probe property is object, semicolon is not needed
 			line.isObject = true
+			// comment after the closing "}" belongs to the probe object
+			if len(po.Trailing) > 0 {
+				line.Trailing = f.trailing(po.Trailing)
+			}
 		} else {
 			line.Value = f.formatExpression(prop.Value).ChunkedString(prop.Nest, len(line.Key))
 			line.EndCharacter = ";"
